@@ -92,7 +92,7 @@ def gen_case(rng, nvals_max, nupd_max, same_creator):
     deleter = None
     vacuumed = False
     n_upd = rng.randint(0, nupd_max) if nv > 0 else 0
-    plan = ["u"] * n_upd + rng.choice([[], [], ["d"]]) + rng.choice([[], [], ["v"]])
+    plan = ["u"] * n_upd + rng.choice([[], [], ["d"], ["d", "d"], ["d", "n"]]) + rng.choice([[], [], ["v"]])
     rng.shuffle(plan)
     for kind in plan:
         if kind == "u":
@@ -109,9 +109,11 @@ def gen_case(rng, nvals_max, nupd_max, same_creator):
         elif kind == "d":
             xid = rng.choice([creator, creator + rng.randint(1, 8)])
             ops_r.append("d:%d" % xid); ops_c.append("TDel %d" % xid)
-            if deleter is None:
-                deleter = xid
+            deleter = xid      # Tuple::delete overwrites an xmax already present
             involved.append(xid)
+        elif kind == "n":
+            ops_r.append("n"); ops_c.append("TUndel")
+            deleter = None
         else:
             h = rng.choice([0, creator, creator + 1, creator + 4, 100])
             ops_r.append("v:%d" % h); ops_c.append("TVac %d" % h)
